@@ -48,6 +48,7 @@ type tcase struct {
 	Prog *mlang.Program `json:"prog"`
 	Mut  *mutation      `json:"mut"`
 	Text string         `json:"text"` // replay of literal text
+	Reps int            `json:"reps"` // number of further compiles compared with the first (default 1)
 }
 
 func realTokens(s string, rx []bool) (toks []string, livelock bool) {
@@ -114,11 +115,16 @@ func compileOnce(src string) (o outcome) {
 	return
 }
 
-func contract(src string) map[string]any {
+func contract(src string, reps int) map[string]any {
 	done := make(chan map[string]any, 1)
 	go func() {
 		a := compileOnce(src)
 		b := compileOnce(src)
+		// map iteration order is the usual source of a compile that differs from run to run: more repetitions
+		// make a rare order visible; the first differing one is reported
+		for i := 1; i < reps && a.Object == b.Object && a.Errors == b.Errors && a.Dump == b.Dump; i++ {
+			b = compileOnce(src)
+		}
 		r := map[string]any{"first": a, "secs": a.Secs}
 		var bad []string
 		if a.Panic != "" {
@@ -246,7 +252,7 @@ func main() {
 			out["livelock"] = ll
 		}
 		out["text"] = text
-		out["contract"] = contract(text)
+		out["contract"] = contract(text, c.Reps)
 		vh.Out(out)
 		return nil
 	})
